@@ -10,7 +10,7 @@ LawTotal  == atoi(IOEnv.LAWTOTAL)   \* Law is enumerated in states whose total i
 MC_PushVals == {NAN, NEG, 0, 1, 2, M - 2, M - 1, M}
 MC_UpdVals  == {NEG, 0, 1, 2, M - 1, M}
 MC_UpdIdx   == 0..6
-MC_NewLists == { <<>>, <<1, 2, 0, 1>>, <<M - 2, 0, 1>>, <<M, 1>>, <<1, NEG>>, <<0, 0, 0>> }
+MC_NewLists == { <<>>, <<1, 2, 0, 1>>, <<M - 2, 0, 1>>, <<M, 1>>, <<1, NEG>>, <<0, 0, 0>>, <<NEG, 1, 1>>, <<2, NEG, 0, 1, 1>> }
 
 \* Law with totals near M would enumerate M targets per state; restrict the
 \* exhaustive Law check to states whose total is small or use the full range
